@@ -627,7 +627,7 @@ impl Check for C10 {
         });
 
         // ---- (a) failed queries ----
-        let kbs_per_shard = cli.n(800, 40_000);
+        let kbs_per_shard = cli.n(800, 10_000);
         shards(cli, nthreads, st, |_shard, rng, st| {
             for _ in 0..kbs_per_shard {
                 if cli.expired() {
